@@ -238,3 +238,90 @@ def r15_10_no_lossy_stdlib_routes(ctx: Ctx) -> RuleResult:
                 else:
                     rr.ok()
     return rr
+
+
+OVERFLOW_BRIDGES_REVIEWED = {
+    "Instant.from_aware_datetime": "documented: an aware datetime whose UTC instant lies outside the Instant range is rejected with OverflowError (the guard of _from_untrusted_duration)",
+}
+
+
+@rule("C15")
+def r15_11_bridges_reach_no_overflow(ctx: Ctx) -> RuleResult:
+    """Conversions between the stdlib types and their counterparts stay inside both ranges by construction (the stdlib range is the
+    smaller one) and signal unrepresentable values with ValueError from their own range guards.  None of them may reach an explicit
+    `raise OverflowError`: that only happens when a conversion detours through an intermediate value with a different range (an
+    instant in UTC for a local value near year 9999 with a negative offset)."""
+    import re
+
+    from ..exc import ExcAnalysis, ExcConfig
+
+    rr = RuleResult("R15.11", "stdlib bridges reach no `raise OverflowError` (no detour through an intermediate value of another range); one documented exception", min_instances=12)
+    A = ExcAnalysis(ctx, ExcConfig())
+    files = anchor_files("C15")
+    for f in sorted(set(ctx.M.func_of_node.values()), key=lambda x: x.qual):
+        if f.mod.rel not in files or isinstance(f.node, ast.Lambda) or f.cls is None or f.parent is not None:
+            continue
+        if not re.search(r"(datetime|timedelta|to_date$|from_date$|to_time$|from_time$)", f.name):
+            continue
+        rr.inst()
+        esc = A.escapes(f)
+        it = esc.values() if isinstance(esc, dict) else esc
+        ov = sorted({e.fn for e in it if e.exc == "OverflowError" and e.kind == "raise"})
+        if not ov:
+            rr.ok()
+        elif f.qual in OVERFLOW_BRIDGES_REVIEWED:
+            rr.ok({"fn": f.qual, "reviewed": OVERFLOW_BRIDGES_REVIEWED[f.qual]})
+        else:
+            rr.fail(f.qual, f"can now raise OverflowError (from {ov[0]}): the conversion goes through an intermediate value whose range the input can leave although the result is representable", ctx.loc(f))
+    return rr
+
+
+@rule("C15")
+def r15_12_timedelta_fields(ctx: Ctx) -> RuleResult:
+    """A timedelta is stored floor-normalised: days may be negative, seconds and microseconds never are.  A value computed from
+    `.days` and `.seconds` alone is therefore the *floor* of the span in seconds; truncation toward zero (what Offset and Duration
+    promise) needs the microseconds as well.  In every function of the bridge files the expression that is returned, if it reads
+    two of the three fields of a timedelta, reads all three (reading the third only for a range check does not count)."""
+    from ..kit import own_nodes
+
+    rr = RuleResult("R15.12", "results computed from a timedelta's fields use all three normalised fields (days, seconds, microseconds), not only the floor part", min_instances=1)
+    files = anchor_files("C15")
+    FIELDS = ("days", "seconds", "microseconds")
+    for f in sorted(set(ctx.M.func_of_node.values()), key=lambda x: x.qual):
+        if f.mod.rel not in files or isinstance(f.node, ast.Lambda):
+            continue
+        tds = {p.arg for p in f.params if p.annotation is not None and "timedelta" in unparse(p.annotation)}
+        if not tds:
+            continue
+        # names flowing into returned values
+        defs: dict[str, set[str]] = {}
+        reads_of: dict[str, set[tuple[str, str]]] = {}
+        for n in own_nodes(f.node):
+            if isinstance(n, (ast.Assign, ast.AnnAssign)) and getattr(n, "value", None) is not None:
+                t = n.targets[0] if isinstance(n, ast.Assign) else n.target
+                if isinstance(t, ast.Name):
+                    defs.setdefault(t.id, set()).update(x.id for x in ast.walk(n.value) if isinstance(x, ast.Name))
+                    reads_of.setdefault(t.id, set()).update((x.value.id, x.attr) for x in ast.walk(n.value) if isinstance(x, ast.Attribute) and isinstance(x.value, ast.Name) and x.value.id in tds and x.attr in FIELDS)
+        for r in own_nodes(f.node):
+            if not (isinstance(r, ast.Return) and r.value is not None):
+                continue
+            seen: set[str] = set()
+            work = [x.id for x in ast.walk(r.value) if isinstance(x, ast.Name)]
+            got = {(x.value.id, x.attr) for x in ast.walk(r.value) if isinstance(x, ast.Attribute) and isinstance(x.value, ast.Name) and x.value.id in tds and x.attr in FIELDS}
+            while work:
+                nm = work.pop()
+                if nm in seen:
+                    continue
+                seen.add(nm)
+                got |= reads_of.get(nm, set())
+                work.extend(defs.get(nm, ()))
+            for td in tds:
+                flds = {a for (o, a) in got if o == td}
+                if len(flds) >= 2:
+                    rr.inst()
+                    if len(flds) == 3:
+                        rr.ok({"fn": f.qual, "fields": sorted(flds)})
+                    else:
+                        missing = sorted(set(FIELDS) - flds)
+                        rr.fail(f.qual, f"the result is computed from `{td}.{'`, `.'.join(sorted(flds))}` without `.{missing[0]}`: for negative spans with a sub-second part this is the floor, not the value truncated toward zero", ctx.loc(f, r))
+    return rr
